@@ -1,6 +1,7 @@
 import CalVerif.Prim.Wire
 import CalVerif.Model.SharedFormula
 import CalVerif.Spec.FormulaTokens
+import CalVerif.Model.XlsxFormula
 /-! Driver for C15 (shared formulas). Texts travel as hex of their UTF-8 bytes (`-` = empty).
 
     replace <hex> <dr> <dc>          → ok <hex> | err | panic | fuel         (model `replaceCellNames`)
@@ -11,6 +12,8 @@ import CalVerif.Spec.FormulaTokens
     dim <hex>                        → ok sr sc er ec | err | panic           (model `getDimension`)
     sheet <cell>;<cell>;…            → ok r,c,<hex>;… | err | panic           (model `worksheet_formula`)
         cell = r,c,N | r,c,P,<hex> | r,c,M,<si>,<hex ref>,<hex> | r,c,C,<si>,<hex> | r,c,X,<hex> (shared, no si)
+    events <event> <event> …         → ok r,c,<hex>;… | err | panic           (event-level model `XlsxFormula.formulaCells`
+                                       on the worksheet part's XML events, wire form of `verif_harness::xlsxw::ev_wire`)
     toks  = tok;tok;…   tok = R,<colAbs 0|1>,<col>,<rowAbs 0|1>,<row> | S,<hex> | Q,<hex> | U,<hex> | I,<hex> | N,<hex> | B,<hex> ([…] span) | P,<hex> -/
 
 open SharedFormula FormulaTokens
@@ -68,8 +71,44 @@ def showOffsets (g : Group) : String :=
     | some (dr, dc) => s!"{r},{c},{dr},{dc}"
     | none => s!"{r},{c},-")
 
+/-! worksheet events (`xlsxw::ev_wire`): `s:<name>:<k>=<hex>,…` | `e:<name>` | `t:<hex>` | `c:<hex>` | `o`;
+    the namespace colon of a name is written `.` -/
+
+def nameOfWire (s : String) : XlsxCells.Bytes := (s.toList.map fun c => if c = '.' then ':' else c).map Char.toNat
+
+def natsOfHex (h : String) : Option XlsxCells.Bytes := (Wire.bytesOfHex h).map fun bs => bs.map UInt8.toNat
+
+def attrsOfWire (s : String) : Option XlsxCells.Attrs :=
+  if s = "-" then some [] else
+  (s.splitOn ",").mapM fun kv =>
+    match kv.splitOn "=" with
+    | [k, v] => (natsOfHex v).map fun b => (nameOfWire k, b)
+    | _ => none
+
+def evOfWire (w : String) : Option XlsxCells.Ev :=
+  if w = "o" then some .other else
+  match w.splitOn ":" with
+  | ["s", n, a] => (attrsOfWire a).map fun at_ => .start (nameOfWire n) at_
+  | ["e", n] => some (.stop (nameOfWire n))
+  | ["t", h] => (natsOfHex h).map .text
+  | ["c", h] => (natsOfHex h).map .text
+  | _ => none
+
+def eventsReply (ws : List String) : String :=
+  match (if ws = ["-"] then some [] else ws.mapM evOfWire) with
+  | none => "bad-op"
+  | some evs =>
+    match XlsxFormula.formulaCells evs with
+    | .ok cells =>
+      "ok " ++ (if cells.isEmpty then "-" else
+        ";".intercalate (cells.map fun c => s!"{c.1},{c.2.1},{Wire.hexOrDash (c.2.2.map UInt8.ofNat)}"))
+    | .err _ => "err"
+    | .panic _ => "panic"
+    | .outOfFuel => "fuel"
+
 def handle (line : String) : String :=
   match Wire.words line with
+  | "events" :: ws => eventsReply ws
   | ["replace", h, dr, dc] =>
     match decodeText h, dr.toInt?, dc.toInt? with
     | some s, some dr, some dc => showRes (replaceCellNames s (dr, dc))
